@@ -104,4 +104,16 @@ PROPS = {
         assumptions=["the harness' reading of what each payload kind does to extractHeader (Oracle/C11.lean extractOf?) is right",
                      "pubsub invokes the validator with a context that ends (the 'unset' outcome uses an already-cancelled one)"],
     ),
+    "C10": dict(
+        props_files=["GoHeader/Props/C10.lean"], gen=["maxRangeRequestSize"],
+        canon=lambda l: l.split(" => ")[0], nontrivial=lambda l: "kind=range" in l and " amount=0 " not in l,
+        rule="real ExchangeServer over a recording proxy around real pruned stores (tail 50/head 300, tail 1, tail = head-1, tiny, empty) on a mock network, raw stream client; "
+             "grid origin {0,1,2,tail-1,tail,tail+1,head-64,head-63,head-1,head,head+1,head+2,10,2^63,2^64-2,2^64-1} x amount {0,1,2,3,63,64,65,66,1000,2^63,2^64-2,2^64-1}, "
+             "seeded random (origin, amount), hash requests (stored, pruned, unknown), arbitrary request bytes; distinct = distinct request per store; non-trivial = range request with amount > 0",
+        trusted_base=[KERNEL, HARNESS_TB, GOTOLEAN + " for MaxRangeRequestSize",
+                      "handleRangeRequest/requestHandler are hand-modelled (P2P.Server) and tied by executing every generated request against the real server over a libp2p mocknet stream",
+                      "modelled, not verified: libp2p mocknet streams, protobuf/serde framing, the Store behind the proxy (C04)"],
+        assumptions=["the server's store satisfies C04 (contiguous tail..head)", "stream deadlines are real time: 'no hang' is observed as answering within 2 s",
+                     "reads = headers the server asks its store for (GetRange widths, Get, GetByHeight); Head() used for clamping is a pointer read"],
+    ),
 }
